@@ -117,6 +117,9 @@ pub struct Ctx {
     /// indices usable as storage content (live entities inside the universe)
     pub l: Vec<u32>,
     pub u: Vec<u32>,
+    /// bumped whenever the storage content is re-installed (batteries that do not depend on the
+    /// partner bit set run once per content)
+    pub version: std::cell::Cell<u64>,
 }
 
 impl Ctx {
@@ -168,10 +171,11 @@ impl Ctx {
             stale.push((n3, "dead, deleted while still awaiting maintain"));
         }
         let l: Vec<u32> = live.keys().copied().collect();
-        Ctx { w, live, stale, l, u: u.to_vec() }
+        Ctx { w, live, stale, l, u: u.to_vec(), version: std::cell::Cell::new(1) }
     }
 
     pub fn set_content<T: Kind>(&self, cur: &mut u32, want: u32) {
+        self.version.set(self.version.get() + 1);
         let mut st = self.w.write_storage::<T>();
         let diff = *cur ^ want;
         for (bit, idx) in self.l.iter().enumerate() {
@@ -484,6 +488,7 @@ pub fn sweep_storage_perm<T: JoinKind>(cfg: &SweepCfg) -> (Stats, Vec<Fail>) {
         let x = ctx.xmask(xbits);
         for order in perms(&x) {
             {
+                ctx.version.set(ctx.version.get() + 1);
                 let mut st = ctx.w.write_storage::<T>();
                 st.clear();
                 for idx in &order {
@@ -1060,6 +1065,84 @@ fn forms_c13<T: JoinKind>(ctx: &Ctx, name: &str, x: &[u32], b: &BitSet, bv: &[u3
             }
         }
     }
+    // the remaining batteries do not depend on the partner bit set: once per storage content
+    thread_local!(static C13_DONE: std::cell::Cell<u64> = const { std::cell::Cell::new(0) });
+    if C13_DONE.with(|d| d.replace(ctx.version.get())) == ctx.version.get() {
+        return;
+    }
+    // sequences of other-entity lookups on ONE exclusive item: every ordered pair of handles
+    // (live, dead, stale), second lookup must not depend on the first
+    if !x.is_empty() {
+        let handles: Vec<(Entity, Option<u32>, String)> = ctx
+            .live
+            .iter()
+            .map(|(i, e)| (*e, if x.contains(i) { Some(zv::<T>(*i)) } else { None }, format!("live {}", i)))
+            .chain(ctx.stale.iter().map(|(e, w)| (*e, None, format!("{} [{:?}]", w, e))))
+            .collect();
+        {
+            let mut r = st.restrict_mut();
+            let mut it = (&mut r).lend_join();
+            let mut p = it.next().unwrap();
+            for (h1, w1, n1) in &handles {
+                for (h2, w2, n2) in &handles {
+                    let a = p.get_other_mut(*h1).map(|mut c| {
+                        let v = c.observe();
+                        let _ = c.access_mut();
+                        v
+                    });
+                    let b2 = p.get_other_mut(*h2).map(|mut c| {
+                        let v = c.observe();
+                        let _ = c.access_mut();
+                        v
+                    });
+                    let c = p.get_other(*h1).map(|c| c.observe());
+                    stats.probes += 3;
+                    if a != *w1 || b2 != *w2 || c != *w1 {
+                        fails.push(Fail { form: format!("PairedStorageWriteExclusive: get_other_mut({}), get_other_mut({}), get_other({}) on one item", n1, n2, n1), kind: name.into(), xmask: x.to_vec(), bmask: bv.to_vec(), detail: format!("got {:?}, {:?}, {:?}; expected {:?}, {:?}, {:?}", a, b2, c, w1, w2, w1), tree: None });
+                        break;
+                    }
+                }
+            }
+        }
+        verify(&st, "lookup sequences", &[], fails);
+        if tracked {
+            check_events(&st, "lookup sequences (every member looked up mutably, nothing else)", x, fails);
+        }
+    }
+    // a handle the storage itself accepts although the allocator never issued its index
+    // (`Entities::entity(k)` beyond the high-water mark is alive by the storage's own rules):
+    // differential against the direct lookup
+    {
+        let phantom = ents.entity(ctx.u.iter().max().unwrap() + 3);
+        if ents.is_alive(phantom) && st.insert(phantom, T::make(val_of(7))).is_ok() {
+            let direct = st.get(phantom).map(|c| c.observe());
+            {
+                let r = st.restrict();
+                let mut it = (&r).lend_join();
+                let p = it.next().unwrap();
+                let o = p.get_other(phantom).map(|c| c.observe());
+                stats.probes += 1;
+                if o != direct {
+                    fails.push(Fail { form: "PairedStorageRead::get_other(generation-one handle of a never issued index)".into(), kind: name.into(), xmask: x.to_vec(), bmask: bv.to_vec(), detail: format!("got {:?}, the storage's own get() returns {:?}", o, direct), tree: None });
+                }
+            }
+            {
+                let mut r = st.restrict_mut();
+                let mut it = (&mut r).lend_join();
+                let mut p = it.next().unwrap();
+                let o = p.get_other(phantom).map(|c| c.observe());
+                let o2 = p.get_other_mut(phantom).map(|c| c.observe());
+                stats.probes += 2;
+                if o != direct || o2 != direct {
+                    fails.push(Fail { form: "PairedStorageWriteExclusive::get_other/_mut(generation-one handle of a never issued index)".into(), kind: name.into(), xmask: x.to_vec(), bmask: bv.to_vec(), detail: format!("got {:?}/{:?}, the storage's own get() returns {:?}", o, o2, direct), tree: None });
+                }
+            }
+            st.remove(phantom).map(|t| t.returned());
+            if tracked {
+                let _ = check_events(&st, "phantom", &[], &mut vec![]);
+            }
+        }
+    }
 }
 
 // ---------------------------------------------------------------------------
@@ -1309,8 +1392,19 @@ pub struct Cat {
 }
 
 impl std::ops::AddAssign for Cat {
+    /// neither commutative nor associative: the result records the order AND the grouping
     fn add_assign(&mut self, rhs: Cat) {
-        self.s.push_str(&rhs.s);
+        self.s = format!("({}{})", self.s, rhs.s);
+    }
+}
+
+/// The specified accumulation: a left fold in arrival order.
+fn fold_expected(m: &mut BTreeMap<u32, String>, idx: u32, a: &str) {
+    match m.get_mut(&idx) {
+        Some(acc) => *acc = format!("({}{})", acc, a),
+        None => {
+            m.insert(idx, a.to_string());
+        }
     }
 }
 
@@ -1360,7 +1454,7 @@ pub fn sweep_changeset(max_len: usize, idxs: &[u32], universe: &[u32]) -> (Stats
             }
             let mut expect: BTreeMap<u32, String> = BTreeMap::new();
             for (e, a) in &seq {
-                expect.entry(idxs[*e]).or_default().push_str(a);
+                fold_expected(&mut expect, idxs[*e], a);
             }
             let seq_ids: Vec<u32> = seq.iter().map(|(e, _)| idxs[*e]).collect();
             if expect.len() < seq.len() && expect.len() > 1 {
@@ -1382,6 +1476,18 @@ pub fn sweep_changeset(max_len: usize, idxs: &[u32], universe: &[u32]) -> (Stats
                 let mut cs: ChangeSet<Cat> = pairs(0, split).into_iter().collect();
                 cs.extend(pairs(split, len));
                 builds.push((format!("collect[..{}]+extend", split), cs));
+            }
+            // a set that was used before: filled (in reverse order), cleared, filled again
+            for split in 1..=len {
+                let mut cs: ChangeSet<Cat> = ChangeSet::new();
+                for (e, a) in pairs(0, split).into_iter().rev() {
+                    cs.add(e, a);
+                }
+                cs.clear();
+                for (e, a) in pairs(0, len) {
+                    cs.add(e, a);
+                }
+                builds.push((format!("fill[..{}] reversed, clear, add", split), cs));
             }
             for (mode, mut cs) in builds {
                 let want: Vec<(u32, String)> = expect.iter().map(|(k, v)| (*k, v.clone())).collect();
@@ -1425,7 +1531,9 @@ pub fn sweep_changeset(max_len: usize, idxs: &[u32], universe: &[u32]) -> (Stats
                     stats.joins += 1;
                 }
                 stats.joins += 3;
-                drop(cs);
+                // finally consume the set that was actually built in this mode
+                let got: Vec<(u32, String)> = (&ents, cs).join().map(|(e, c)| (e.id(), c.s.clone())).collect();
+                chk!(fails, "changeset", format!("{} (&entities,cs).join of the built set", mode), seq_ids, Vec::<u32>::new(), got, want.clone());
             }
             let (made, dropped, errs) = CAT_LIVE.with(|c| c.borrow().clone());
             if made != dropped || !errs.is_empty() {
@@ -1463,7 +1571,7 @@ pub fn sweep_changeset_long() -> (Stats, Vec<Fail>) {
             let seq: Vec<(usize, String)> = (0..len).map(|i| (pat(i), format!("t{};", i))).collect();
             let mut expect: BTreeMap<u32, String> = BTreeMap::new();
             for (e, a) in &seq {
-                expect.entry(idxs[*e]).or_default().push_str(a);
+                fold_expected(&mut expect, idxs[*e], a);
             }
             let want: Vec<(u32, String)> = expect.iter().map(|(k, v)| (*k, v.clone())).collect();
             let pairs = |from: usize, to: usize| -> Vec<(Entity, Cat)> { seq[from..to].iter().map(|(e, a)| (hs[*e], Cat::new(a))).collect() };
@@ -1731,6 +1839,7 @@ pub fn main() {
         assumptions: vec![
             "hibitset (bit sets, BitProducer::split) and rayon's bridge are trusted; every split/fold decision sequence rayon can take is one of the enumerated trees".into(),
             "data races inside one storage's shared_get_mut for distinct indices (DistinctStorage contract) are not explored".into(),
+            "parts named 'real pools' run the public par_join() iterator under rayon's own scheduler: exhaustive over contents and partner masks, NOT over schedules (the schedule dimension of the producer is what the split-tree parts enumerate); they bind drive_unindexed and the bridge to the producer".into(),
         ],
         wall_s: t0.elapsed().as_secs_f64(),
     };
